@@ -123,7 +123,7 @@ def report_trace_violations(rep, prop, val, hs_by_id, res, nfiles, sizes):
 def replay_graph(rep, m, nfiles, picks, tag, sizes_out=None):
     """execute the user-level steps `picks` = [(state, opkey)] of the model graph in the real code (histories = a
     shortest path to a source state followed by a walk over transitions not covered yet); compare every observed
-    state; -> (transitions covered, states compared)"""
+    state; -> (transitions covered, states compared, histories)"""
     parent = m.bfs()
     want = {(s, ok) for s, ok in picks if s in parent}
     depth = {}
@@ -173,7 +173,7 @@ def replay_graph(rep, m, nfiles, picks, tag, sizes_out=None):
                 m.protocol, mm["at"], json.dumps(st, sort_keys=True), json.dumps({k: mm[k] for k in mm if k not in ("at", "step")}, sort_keys=True)[:400]),
                 {"engine": "build", "mode": "replay", "nfiles": nfiles, "protocol": m.protocol,
                  "steps": h["steps"][:mm["at"] + 1], "mismatch": mm})
-    return covered, steps
+    return covered, steps, len(hs)
 
 
 def all_picks(m):
@@ -223,7 +223,7 @@ def check_C21(tier, seed):
                           {"engine": "build", "mode": "model", "nfiles": n, "protocol": mproto, "state": u})
     rep.add(states=states, transitions=trans, exhaustive=True, protocol=proto)
     # 2. spec -> impl: every user-level transition of the state graph, in the real code
-    nrep = nsteps = 0
+    nrep = nsteps = nhist = 0
     rng = random.Random(seed * 31 + 7)
     for n, m in sorted(graphs.items()):
         picks = all_picks(m)
@@ -231,10 +231,11 @@ def check_C21(tier, seed):
         if n == 2 and not thorough:
             rng.shuffle(picks)
             picks = picks[:6000]
-        a, b = replay_graph(rep, m, n, picks, "r%d-" % n)
-        log("replayed %d of %d user-level transitions of the %d-file graph (%d states compared)" % (a, total, n, b))
+        a, b, c = replay_graph(rep, m, n, picks, "r%d-" % n)
+        log("replayed %d of %d user-level transitions of the %d-file graph (%d histories, %d states compared)" % (a, total, n, c, b))
         nrep += a
         nsteps += b
+        nhist += c
         rep.add(**{"graph_transitions_%dfile" % n: total, "graph_transitions_replayed_%dfile" % n: a})
     # 3. impl -> spec: random long histories validated by TraceBuild
     ntr = 0
@@ -248,8 +249,8 @@ def check_C21(tier, seed):
             rep.add(trace_events=val["lines"], trace_steps_not_enabled=dropped)
             if variant == 0 and n == 1:
                 rep.sample({"history": hs[0]["steps"][:12], "observed_after_last": [e for e in res[hs[0]["id"]] if e["ev"] != "end"][11]["obs"]})
-    rep.add(traces_validated_against_impl=nrep + ntr, replayed_histories=nrep, replayed_steps_compared=nsteps,
-            recorded_histories_validated=ntr, trace_states=tstates)
+    rep.add(traces_validated_against_impl=nhist + ntr, replayed_histories=nhist, graph_transitions_replayed=nrep,
+            replayed_steps_compared=nsteps, recorded_histories_validated=ntr, trace_states=tstates)
     m1 = graphs[1]
     s0 = m1.init[0]
     rep.sample({"model_state": m1.state[s0], "steps_enabled": [e["op"] for e in list(m1.steps[s0].values())[:6]]})
@@ -335,7 +336,7 @@ def check_C22(tier, seed):
     rep.add(states=states, transitions=trans, exhaustive=True, protocol=proto)
     # 2. TLC's counterexamples (if the protocol the code follows is unsafe in the model) confirmed in the real code,
     #    and every user-level transition of the graph -- crashes and failing writes included -- replayed
-    nrep = nsteps = 0
+    nrep = nsteps = nhist = 0
     rng = random.Random(seed * 17 + 3)
     for n, (m, unsafe) in sorted(graphs.items()):
         picks = all_picks(m)
@@ -343,13 +344,14 @@ def check_C22(tier, seed):
         if n == 2:
             rng.shuffle(picks)
             picks = picks[:6000]
-        a, b = replay_graph(rep, m, n, picks, "r%d-" % n, sizes)
-        log("replayed %d of %d user-level transitions of the %d-file graph with faults (%d states compared)" % (a, total, n, b))
+        a, b, c = replay_graph(rep, m, n, picks, "r%d-" % n, sizes)
+        log("replayed %d of %d user-level transitions of the %d-file graph with faults (%d histories, %d states compared)" % (a, total, n, c, b))
         nrep += a
         nsteps += b
+        nhist += c
         rep.add(**{"graph_transitions_%dfile" % n: total, "graph_transitions_replayed_%dfile" % n: a})
         if n == 1:
-            nrep += confirm_unsafe(rep, m, unsafe, n, sizes)
+            nhist += confirm_unsafe(rep, m, unsafe, n, sizes)
     log("C22: graph replay done at %.0fs" % (vlib.time.time() - rep.t0))
     # 3. fault enumeration in the real code, validated by TraceBuild with CrashSafe in every state
     if not sizes:
@@ -381,8 +383,8 @@ def check_C22(tier, seed):
         val2, res2, dropped = validate_histories(rep, "CrashSafe", hs2, n, ["TypeOK", "CrashSafe", "OutputFunctional"])
         ntr += val2["histories"]
         rep.add(trace_events=val2["lines"], trace_steps_not_enabled=dropped)
-    rep.add(traces_validated_against_impl=nrep + ntr, replayed_histories=nrep, replayed_steps_compared=nsteps,
-            recorded_histories_validated=ntr)
+    rep.add(traces_validated_against_impl=nhist + ntr, replayed_histories=nhist, graph_transitions_replayed=nrep,
+            replayed_steps_compared=nsteps, recorded_histories_validated=ntr)
     rep.assumptions = ["a crash is the death of the process (abort at a cfg-guarded hook) or a write failing at a byte offset "
                        "(RLIMIT_FSIZE, SIGXFSZ ignored); power loss with reordered writes is not modelled",
                        "fsdrv's projection of a file onto (ver, hash, body) compares with reference forced builds of the same code"]
